@@ -54,6 +54,8 @@ FIXED = {
     's_ures':    'U[R[_,_,_], N[R[_,_], S[_,_,_], _], C[_,R[_,_,_]], _]',
     # two composite levels between an orthogonal region and region destinations (the third ancestor loop of requestImmediate meets an orthogonal region)
     's_occ':     'O[C[_, C[_, R[_,_], C[_,_]]], C[_, O[C[_, C[_,_]], _]]]',
+    # orthogonal regions whose width is not a power of two next to regions with the same head: mathematically tied utilities (mean of 3 or 5 equal members vs one member)
+    's_tie':     'U[O[_,_,_], C[_,_], O[_,_,_,_,_], N[O[_,_,_],_]]',
 }
 
 
